@@ -29,6 +29,20 @@ META = {
 }
 
 
+def _chain_language(ctx):
+    """every clean chain of halves and quarters, in any order, is unpacked as ONE aliquot"""
+    import re as _re
+    from .. import rx as _rx
+    from . import families as _F
+    rv = ctx.fold.get('rgxlib.aliquots', 'aliquot_unpacker_regex')
+    cex = ctx.cache(('inc', _F.ALIQUOT_CHAIN, rv.pattern, rv.flags),
+                    lambda: _rx.included(_F.ALIQUOT_CHAIN, 0, rv.pattern, rv.flags))
+    ctx.check(cex is None, 'RX-LANG', 'clean aliquot chains (halves and quarters in any order) <= L(aliquot_unpacker_regex)',
+              'family included',
+              f"the chain {cex!r} is no longer matched as a whole by aliquot_unpacker_regex: the aliquot is dropped / cut "
+              f"in two by TractParser", key='RX-LANG|aliquot_unpacker_regex|chains', witness=repr(cex))
+
+
 def check(ctx):
     ctx.consult('tract/aliquot_parse.py')
     ctx.attempt(_tables)
@@ -36,11 +50,13 @@ def check(ctx):
     ctx.attempt(_consume)
     ctx.attempt(_order)
     ctx.attempt(_standardize)
+    ctx.attempt(_fixpoint_window)
     ctx.attempt(_subdivide)
     ctx.attempt(_pass_back_linear)
     ctx.attempt(forward.check_all, module_suffixes=('tract.aliquot_parse', 'tract.tract', 'tract.tract_parse'))
     ctx.attempt(lockdown, ctx.repo.func('Tract.parse'), only=('qq_depth', 'qq_depth_min', 'qq_depth_max', 'break_halves'))
     ctx.attempt(qq_depth_precedence, ctx.repo.func('Tract.parse'))
+    ctx.attempt(_chain_language)
 
 
 def _tables(ctx):
@@ -230,6 +246,69 @@ def _standardize(ctx):
     t = ' '.join(norm(s) for s in walk_local(fp.node) if isinstance(s, ast.stmt))
     ctx.shape('if not (aq2 in QQ_HALVES and aq1 in QQ_QUARTERS)' in t, 'ORDER',
               'pass_back_halves acts only on a half following a quarter')
+
+
+def _fixpoint_window(ctx):
+    """A multi-pass fixed-point loop compares the value from BEFORE the first
+    pass of an iteration with the value AFTER the last one.  If both sides of
+    the stability test were produced by passes of the same iteration, the
+    earlier passes are outside the window: the loop stops as soon as the last
+    pass changes nothing although an earlier pass just enabled more work."""
+    fi = ctx.repo.func('aliquot_parse:standardize_aliquot_components')
+    loops = [n for n in fi.node.body if isinstance(n, ast.While)]
+    construct = 'standardize_aliquot_components: the stability test spans all passes of an iteration'
+    if len(loops) != 1:
+        ctx.undecided('FIXPOINT', construct, 'loop not recognised')
+        return
+    loop = loops[0]
+    repo_names = {f.node.name for f in ctx.repo.funcs.values() if f.module is fi.module and f.outer is None}
+    body = loop.body
+    # events in body order: (index, target name, kind, callee)
+    events = []
+    for i, st in enumerate(body):
+        for n in ast.walk(st):
+            if isinstance(n, ast.Assign) and len(n.targets) == 1 and isinstance(n.targets[0], ast.Name):
+                v = n.value
+                if isinstance(v, ast.Call) and dotted(v.func) in repo_names:
+                    events.append((i, n.targets[0].id, 'pass', dotted(v.func)))
+                else:
+                    events.append((i, n.targets[0].id, 'other', norm(v)[:30]))
+    passes = [e for e in events if e[2] == 'pass']
+    if len({e[3] for e in passes}) < 2:
+        ctx.undecided('FIXPOINT', construct, 'fewer than two passes in the loop body')
+        return
+    # the stability comparison: loop test, or an `if a == b` / `if a != b` in the body
+    sites = []
+    if isinstance(loop.test, ast.Compare) and isinstance(loop.test.ops[0], (ast.Eq, ast.NotEq)):
+        sites.append((len(body), loop.test))
+    for i, st in enumerate(body):
+        if isinstance(st, ast.If) and isinstance(st.test, ast.Compare) and isinstance(st.test.ops[0], (ast.Eq, ast.NotEq)) \
+                and any(isinstance(x, (ast.Return, ast.Break)) for x in ast.walk(st)):
+            sites.append((i, st.test))
+    if not sites:
+        ctx.undecided('FIXPOINT', construct, 'stability comparison not recognised')
+        return
+    for pos, cmp_ in sites:
+        ops = [cmp_.left, cmp_.comparators[0]]
+        if not all(isinstance(o, ast.Name) for o in ops):
+            ctx.undecided('FIXPOINT', construct, f"`{norm(cmp_)}` does not compare two names")
+            continue
+        last = {}
+        for o in ops:
+            prior = [e for e in events if e[1] == o.id and e[0] < pos]
+            last[o.id] = prior[-1] if prior else None
+        kinds = [last[o.id][2] if last[o.id] else 'carried' for o in ops]
+        both_passes = kinds == ['pass', 'pass'] and last[ops[0].id][3] != last[ops[1].id][3]
+        outside = sorted({e[3] for e in passes} - {last[o.id][3] for o in ops if last[o.id] and last[o.id][2] == 'pass'}) \
+            if both_passes else []
+        first_pass = min(e[0] for e in passes)
+        earlier = [last[o.id] for o in ops if last[o.id] and last[o.id][2] == 'pass']
+        ctx.tri(kinds.count('pass') <= 1, both_passes, 'FIXPOINT', construct,
+                f"`{norm(cmp_)}`: one side is carried over from before the passes",
+                f"`{norm(cmp_)}` compares the output of {last[ops[0].id][3] if last[ops[0].id] else '?'}() with the output "
+                f"of {last[ops[1].id][3] if last[ops[1].id] else '?'}() of the same iteration: the loop ends when the last "
+                f"pass changes nothing, even if the earlier pass has just moved a half to where it can be combined",
+                key="FIXPOINT|standardize_aliquot_components|window", where=common.loc(fi, cmp_))
 
 
 def _subdivide(ctx):
